@@ -84,6 +84,12 @@ Fixpoint stitch (b : bufscript) (k : N) (ans : list answer) : bytes * err * list
       end
   end.
 
+Fixpoint bytes_prefix (a b : bytes) : bool :=
+  match a, b with
+  | [], _ => true
+  | x :: a', y :: b' => (x =? y)%N && bytes_prefix a' b'
+  | _, _ => false
+  end.
 Fixpoint is_prefix (a b : list Z) : bool :=
   match a, b with
   | [], _ => true
@@ -141,6 +147,8 @@ Definition mon16 (inp obs : sx) : list Z :=
      (* 4: every I/O error of an underlying buffer is offered once, in order (none invented,
            none repeated, none skipped); all of them when the stream completed *)
      (if is_prefix offered (map code_of offs) && (negb done || (j =? length offs)%nat) then [] else [4]) ++
+     (* 7: whatever the outcome, the bytes handed out are the stitched stream's, once and in order *)
+     (if trusted && negb (bytes_prefix delivered (expected m st)) then [7] else []) ++
      (* 5: invalid stitched stream: fewer than size bytes handed out *)
      (if trusted && negb st_valid && negb (is_nil delivered)
          && negb (m_off m + Z.of_N (lenN delivered) <? Z.of_N size) then [5] else [])
